@@ -692,3 +692,139 @@ def t4(ctx):
         ctx.check('registry.%s/order' % name, c[1] == want,
                   '%s yields %s key order' % (name, want), '%s yields %s key order' % (name, c[1]),
                   mod.loc(mod.func(name)))
+
+
+# ---------------------------------------------------------------------------------------------
+SEQ_KINDS = ['Tuple', 'List', 'NamedTuple', 'StructSequence', 'Deque']
+DICT_KINDS = ['Dict', 'OrderedDict', 'DefaultDict']
+
+
+def _entry_class(ent):
+    """SEQ (an integer index), KEY (a key of the list that orders the children), ENTRIES
+    (element of the custom entries tuple), or the raw text"""
+    if ent is None:
+        return None
+    if ent.startswith('INT('):
+        return 'SEQ'
+    if ent.startswith('KEY-OF-KEYS(') or ent in ('ELEM(SPEC.node_data)', 'ELEM(SPEC.node_data[1])',
+                                                   'KEY-OF-SPEC.node_data', 'KEY-OF-SPEC.node_data[1]'):
+        return 'KEY'
+    if ent in ('ELEM(OUT2)', 'ELEM(SPEC.node_entries)'):
+        return 'ENTRIES'
+    return ent
+
+
+@rule('N1', floor=30, title='every producer of path entries uses the same entry per kind, typed with the parent\'s type and kind')
+def n1(ctx):
+    prog = ctx.cxx()
+    want = {}
+    for k in SEQ_KINDS:
+        want[k] = {'SEQ'}
+    for k in DICT_KINDS:
+        want[k] = {'KEY'}
+    # flatten with path
+    for f in _insts(prog, 'PyTreeSpec::FlattenIntoWithPathImpl'):
+        d = arm_descriptors(prog, f)
+        for kind in SEQ_KINDS + DICT_KINDS:
+            got = {_entry_class(e) for _, e in d[kind].visits}
+            ctx.check('FlattenIntoWithPathImpl/%s' % kind, got == want[kind],
+                      '%s: %s children are entered under %s' % (inst(f), kind, sorted(want[kind])),
+                      '%s: %s children are entered under %s, expected %s'
+                      % (inst(f), kind, sorted(map(str, got)), sorted(want[kind])), f.loc)
+        got = {_entry_class(e) for _, e in d['Custom'].visits}
+        ctx.check('FlattenIntoWithPathImpl/Custom', got == {'SEQ', 'ENTRIES'},
+                  '%s: custom children are entered under entries[i] when entries are given, else under 0..n-1' % inst(f),
+                  '%s: custom children are entered under %s' % (inst(f), sorted(map(str, got))), f.loc)
+        # dict keys entering the path are the ones that order the children: same loop variable
+        for kind in DICT_KINDS:
+            reads = [r for r in d[kind].child_reads if r[0] == 'DictGetItem']
+            ok = bool(reads) and all(r[2].startswith('KEY-OF-KEYS(SELF)') for r in reads)
+            ctx.check('FlattenIntoWithPathImpl/%s/key-is-loop-key' % kind, ok,
+                      '%s: the child is looked up with the same key that becomes its path entry' % inst(f),
+                      '%s: child lookup key and path entry differ for %s' % (inst(f), kind), f.loc)
+    # walkers over the node array
+    for name in ('PyTreeSpec::PathsImpl', 'PyTreeSpec::AccessorsImpl'):
+        for f in _insts(prog, name):
+            d = arm_descriptors(prog, f)
+            for kind in SEQ_KINDS + DICT_KINDS + ['Custom']:
+                got = {_entry_class(e) for _, e in d[kind].visits}
+                w = want.get(kind, {'SEQ'})
+                ctx.check('%s/%s' % (short(f).split('::')[-1], kind), got == w,
+                          '%s: %s entries are %s' % (inst(f), kind, sorted(w)),
+                          '%s: %s entries are %s, flatten-with-path uses %s'
+                          % (inst(f), kind, sorted(map(str, got)), sorted(w)), f.loc)
+            # explicit entries take precedence
+            pre = [c for c in calls_in(f.body, {'TupleGetItem'})
+                   if any(m.kind == 'MemberExpr' and m.name == 'node_entries' for m in c.walk())]
+            parent = enclosing_map(f.body)
+            ok = False
+            for c in pre:
+                ifs = [a for a in ancestors(c, parent) if a.kind == 'IfStmt']
+                if ifs and 'node_entries' in ifs[-1].kids[0].text(4) and \
+                        any(x is c for x in ifs[-1].kids[1].walk()):
+                    ok = True
+            ctx.check('%s/explicit-entries-first' % short(f).split('::')[-1], ok,
+                      '%s: node_entries[i] is used whenever the node has explicit entries' % inst(f),
+                      '%s does not use node_entries when present' % inst(f), f.loc)
+    # accessor construction: path_entry_type(entry, node_type, node_kind) of the parent
+    for f in _insts(prog, 'PyTreeSpec::AccessorsImpl'):
+        inits = local_inits(f)
+        lam = [l for l in prog.lambdas_of(f)]
+        ok = False
+        for l in lam:
+            for c in l.body.find('CXXOperatorCallExpr'):
+                if c.callee_name() == 'operator()' and len(c.kids) == 5:
+                    names = [member_path(strip_casts(x)) for x in c.kids[1:]]
+                    if names == ['path_entry_type', 'entry', 'node_type', 'node_kind']:
+                        ok = True
+        t_init = inits.get('node_type')
+        k_init = inits.get('node_kind')
+        p_init = inits.get('path_entry_type')
+        ok2 = t_init is not None and any(c.callee_name() == 'GetType' and
+                                          member_path(c.call_args()[0]) == 'root'
+                                          for c in calls_in(t_init)) and \
+            k_init is not None and member_path(strip_casts(k_init)) == 'root.kind' and \
+            p_init is not None and any(c.callee_name() == 'GetPathEntryType' and
+                                       member_path(c.call_args()[0]) == 'root' for c in calls_in(p_init))
+        ctx.check('AccessorsImpl/typed-with-parent', ok and ok2,
+                  '%s builds each entry as path_entry_type(entry, type, kind) with all three taken '
+                  'from the parent node' % inst(f),
+                  '%s does not build entries as PathEntryType(root)(entry, GetType(root), root.kind)'
+                  % inst(f), f.loc)
+    # Entries() / Entry()
+    f = prog.one('PyTreeSpec::Entries')
+    d = arm_descriptors(prog, f)
+    for kind in DICT_KINDS:
+        rets = [e for e in d[kind].events if e[0] == 'return']
+        txt = rets[0][1].text(8) if rets else ''
+        w = 'node_data' if kind != 'DefaultDict' else 'TupleGetItem(root.node_data, 1)'
+        ok = 'Py_ID_copy' in txt and ('node_data' in txt) and (('TupleGetItem' in txt) == (kind == 'DefaultDict'))
+        ctx.check('Entries/%s' % kind, ok,
+                  'entries() of a %s is a copy of its key list' % kind,
+                  'entries() of a %s returns %s' % (kind, txt[:80]), f.loc)
+    for kind in SEQ_KINDS + ['Custom']:
+        fills = [e for e in d[kind].events if e[0] == 'loop']
+        ok = any(c.callee_name() == 'ListSetItem' and 'int_' in c.text(5)
+                 for s in [e[3] for e in fills] for c in calls_in(s))
+        ctx.check('Entries/%s' % kind, ok, 'entries() of a %s is [0, ..., n-1]' % kind,
+                  'entries() of a %s is not the index list' % kind, f.loc)
+    g = prog.one('PyTreeSpec::Entry')
+    dg = arm_descriptors(prog, g)
+    for kind in DICT_KINDS:
+        rets = [e for e in dg[kind].events if e[0] == 'return']
+        txt = rets[0][1].text(8) if rets else ''
+        ok = 'ListGetItem' in txt and 'node_data' in txt and 'index' in txt and \
+            (('TupleGetItemAs' in txt) == (kind == 'DefaultDict'))
+        ctx.check('Entry/%s' % kind, ok, 'entry(i) of a %s is key i of its key list' % kind,
+                  'entry(i) of a %s returns %s' % (kind, txt[:80]), g.loc)
+    for kind in SEQ_KINDS + ['Custom']:
+        rets = [e for e in dg[kind].events if e[0] == 'return']
+        txt = rets[0][1].text(6) if rets else ''
+        ctx.check('Entry/%s' % kind, 'int_' in txt and 'index' in txt,
+                  'entry(i) of a %s is i' % kind, 'entry(i) of a %s returns %s' % (kind, txt[:60]), g.loc)
+    for fn_, nm in ((f, 'Entries'), (g, 'Entry')):
+        pre = [r for r in fn_.body.walk() if r.kind == 'ReturnStmt' and r.kids and
+               'node_entries' in r.kids[0].text(6)]
+        ctx.check('%s/explicit-entries-first' % nm, bool(pre),
+                  '%s() answers from node_entries when the node has explicit entries' % nm.lower(),
+                  '%s() ignores node_entries' % nm.lower(), fn_.loc)
